@@ -177,6 +177,15 @@ CHECKS["C19"] = dict(
     note="Bounded history length; Monte-Carlo operations are made deterministic by seeding numpy's global RNG before the call.",
     design="7/C19",
 )
+CHECKS["C16"] = dict(
+    technique="property-based testing (Hypothesis): round trips, finite-difference differential for the Jacobian, differential against an independently derived push-forward density, and distribution-free (DKW / Beta order-statistic / Hoeffding) bounds for every Monte-Carlo quantity against the exact conditional law",
+    text="Six closed-form transformations and the two predefined (transform, inverse, jacobian) triples over (1e-3,1e2)^4; Windmeier / non-zero EW Hs-steepness structures with generated coefficients: "
+         "TransformedModel.pdf == f_hs(h) f_S(c h/t^2|h) 2 c h/t^3 and integrates to 1, cdf == exact 1-D integral, empirical_cdf within Hoeffding, draw_sample == inverse(base sample) under the same seed; "
+         "conditional_sample / conditional_cdf / conditional_icdf of Tz|Hs and Hs|Tz at conditioning quantiles 0.002 .. 1-1e-5 against the exact conditional law incl. tail mass beyond the extreme draws; "
+         "IFORM contours of the transformed model inside order-statistic intervals in probability space and bit-reproducible under random_state.",
+    note="IFORM cases bounded to alpha >= 1e-3, precision_factor <= 0.3, 8 (quick) / 64 (thorough) contours - a resource bound of the implementation (up to 1e7 uniforms per point).",
+    design="7/C16",
+)
 NOT_YET = {}
 
 def main():
